@@ -12,6 +12,7 @@
 from __future__ import annotations
 
 import ast
+import re
 
 from ..cfg import cfg_of
 from ..core import (
@@ -247,8 +248,14 @@ def rule_keyspace(program, ctx):
     else:
         ctx.bad(finding_func(P, rid, su, "the writer thread can start before the tombstone is written", text="def setup(...) :: tombstone order"))
     tc = program.func("nostr_relay.storage.kv:TagIndex.convert")
-    txt = ast.unparse(tc)
-    if "len(tag[0]) == 1" in txt and "'expiration'" in txt and "'delegation'" in txt and "len(tag) >= 2" in txt:
+    # the conditions under which a key is yielded, with loop-local names read through (`name = tag[0]`); their admissibility (shape tests only) is C10.tagindex
+    from ..lib import expand_aliases as _ea, guard_atoms as _ga
+    conds = []
+    for y in [y for y in ast.walk(tc) if isinstance(y, ast.Yield)]:
+        lp = next((a for a in ancestors(y) if isinstance(a, ast.For)), tc)
+        conds += [ast.unparse(_ea(tc, e)) for e, pol in _ga(y, stop=lp) if pol]
+    txt = " ; ".join(conds)
+    if re.search(r"len\(\w+\[0\]\) == 1", txt) and "'expiration'" in txt and "'delegation'" in txt:
         ctx.ok(rid, tc, "TagIndex.convert: one-character names + expiration + delegation, tags with a value")
     else:
         ctx.bad(finding_func(P, rid, tc, "TagIndex.convert no longer indexes exactly one-character names, 'expiration' and 'delegation': '#x' filters or the garbage collector miss events", text="def convert(...) :: coverage"))
@@ -361,7 +368,7 @@ def rule_render(program, ctx, prop=P, rid="C10.render"):
             v = ast.unparse(c.args[0])
             typed = any(pol and isinstance(e, ast.Call) and call_name(e) == "isinstance" and ast.unparse(e.args[0]) == v and "str" in ast.unparse(e.args[1]) for e, pol in guard_atoms(c, stop=cv))
             if tuples_on_read and not typed:
-                ctx.bad(finding_at(prop, rid, c, f"`{ast.unparse(c)}` renders a nested array by its Python container type: the wire event has a list, the stored record (use_list=False) a tuple - "
+                ctx.bad(finding_func(prop, rid, cv, f"`{ast.unparse(c)}` renders a nested array by its Python container type: the wire event has a list, the stored record (use_list=False) a tuple - "
                                    "the index entry of a tag whose value is a JSON array is written under one key and cleared under another; it dangles after deletion / replacement",
                                    text="str() of a tag value that may be an array"))
             else:
